@@ -1557,7 +1557,7 @@ func main() {
 		"least one lifecycle transition and at least one rejected or faulted operation; plus an overlapping-operations class: for pairs among " +
 		"{SetStoreWeight, UpdateStoreLabels, PutStore, RemoveStore, UpStore, buryStore, checkStores, RemoveTombStoneRecords} on one store in a random " +
 		"lifecycle situation, the first is parked at its 1st/2nd/3rd storage write of that store (KV wrapper) while the second is started, and the " +
-		"outcome must be that of one of the two sequential orders; distinct by sha256 of the canonical case text"
+		"outcome must be that of one of the two sequential orders; distinct by sha256 of the canonical case text; Further classes (see notes/C14.md): replication settings changed in the history (strict labels, TiFlash guard), peer roles in region heartbeats, fixed address-re-use and joint-state cases; overlapping pairs of operations with the first parked at one of its storage writes and a reload afterwards; several failing writes in one operation; leader changes with more store records than one LoadStores page, re-election into a non-empty cache after another leader changed the storage; the end of a term with a slow storage"
 	cf := &coqfmt.CaseFile{Dir: *out, Prefix: "C14", PerFile: 25,
 		Header: "From Coq Require Import String.\nFrom PDV Require Import lib.Base model.C14_Store.\nLocal Open Scope string_scope.\nLocal Open Scope Z_scope.\n",
 		Type:   "case",
